@@ -237,6 +237,9 @@ def one_pass(ctx, src, independent, pat, order, ending, case, tag, entry='separa
     try:
         if ending == 'stop':
             sections.stop_sections()
+        elif ending == 'stop+resolve':
+            sections.stop_sections()
+            simple.resolve()
         else:
             simple.resolve()
     except Exception as e:
@@ -246,7 +249,7 @@ def one_pass(ctx, src, independent, pat, order, ending, case, tag, entry='separa
     if MAIN_REPORT.submission.main_code != src:
         ctx.fail({'symptom': 'main code not restored', 'ending': ending}, case=case,
                  got=MAIN_REPORT.submission.main_code)
-    elif ending == 'stop':
+    elif ending.startswith('stop'):
         tools_and_lines(src, 0, -1, len(MAIN_REPORT.feedback), 'after stop_sections')
 
 
@@ -257,14 +260,17 @@ def make_body(max_lines, orders, second, KINDS=KINDS, endings_phase=False):
         pname, pat, marker = PATS[ctx.choose(len(PATS), 'pattern')]
         independent = not ctx.choose(2, 'cumulative')
         order = orders[ctx.choose(len(orders), 'order')]
-        ending = ('stop', 'resolve')[ctx.choose(2, 'ending')]
+        ending = (('stop', 'resolve', 'stop+resolve')[ctx.choose(3, 'ending')] if endings_phase
+                  else ('stop', 'resolve')[ctx.choose(2, 'ending')])
         again = ctx.choose(3, 'second-pass') if second else 0     # 0 none, 1 same mode, 2 other mode
         entry = ('separate', 'set_source')[ctx.choose(2, 'entry')] if second else 'separate'
         # (tool-orders phase) the whole file may have been verified before it is separated
         pre_verified = bool(ctx.choose(2, 'verified-before-separating')) if not second else False
         # ... and the report may have been resolved once already (an instructor script that resolves per part)
-        pre_resolved = bool(ctx.choose(2, 'resolved-before-separating')) if (endings_phase and ending == 'resolve') else False
+        pre_resolved = bool(ctx.choose(2, 'resolved-before-separating')) if (endings_phase and ending != 'stop') else False
         stop_in = (None, 'last section', 'prologue')[ctx.choose(3, 'script-ends-in')] if endings_phase else None
+        # ... and an earlier grading in this process may have been abandoned inside its sections (a script that crashed)
+        abandoned_before = bool(ctx.choose(2, 'abandoned-session-before')) if endings_phase else False
         src = mk(kinds, marker)
         case = {'file': src, 'mode': 'independent' if independent else 'cumulative', 'pattern': pname,
                 'order': order, 'ending': ending, 'second_pass': again, 'entry': entry}
@@ -274,6 +280,12 @@ def make_body(max_lines, orders, second, KINDS=KINDS, endings_phase=False):
         if 'marker' in kinds and any(k in ('name', 'syntax', 'same', 'samesyn') for k in kinds[kinds.index('marker'):]):
             ctx.mark_nontrivial(canon)
         cmds.clear_report()
+        if abandoned_before:
+            case['abandoned_session_before'] = True
+            cmds.contextualize_report("old0 = 0\n##### Part 1\nold2 = 2\n##### Part 2\nold4 = 4\n")
+            sections.separate_into_sections()
+            sections.next_section()
+            cmds.clear_report()          # the next submission starts the documented way
         if entry == 'separate':
             cmds.contextualize_report(src)
             if pre_verified:
